@@ -400,6 +400,9 @@ func (b *Branches) consider(ctx context.Context, bs Bindings, pending interface{
 	}
 
 	for _, br := range b.Branches {
+		if br == nil {
+			continue
+		}
 		to, traces, err := br.try(ctx, bs, against, props)
 
 		ts.Add(traces.Messages...)
